@@ -50,6 +50,11 @@ def _worker(task):
             _MODCACHE.clear()
         mod = llir.Module().parse(ll)
         _MODCACHE[ll] = mod
+    # per-job engine settings travel in a side file next to the IR (the pool is forked before jobs are known)
+    for k in ('LLSYM_Z3_TIMEOUT_MS', 'LLSYM_CVC5_TIMEOUT_MS'):
+        os.environ.pop(k, None)
+    if os.path.exists(ll + '.env'):
+        os.environ.update(json.load(open(ll + '.env')))
     ex = llsym.Executor(mod, replay=trace)
     ex.hang_is_finding = hang
     if mode == 'twin':
@@ -134,11 +139,15 @@ class Check:
             job['ll'] = cbuild.link_harness_ir(self.scratch, lib, harness, job['defines'], job['tag'])
             job['_left'] = 0
             per_job[ji] = []
+            if job.get('env'):
+                json.dump(job['env'], open(job['ll'] + '.env', 'w'))
             t = (job['ll'], job['entry'], 'split', None, job['timeout'], job['max_steps'], job.get('split', 4 * NPROC))
             pending.append((ji, pool.apply_async(_worker, (t,))))
             if job.get('twin', True):
                 d2 = dict(job['defines'], VACUITY_TWIN=1)
                 ll2 = cbuild.link_harness_ir(self.scratch, lib, harness, d2, job['tag'] + '_twin')
+                if job.get('env'):
+                    json.dump(job['env'], open(ll2 + '.env', 'w'))
                 t = (ll2, job['entry'], 'twin', None, job.get('twin_timeout', 120), job['max_steps'], 0)
                 pending.append((('twin', ji), pool.apply_async(_worker, (t,))))
         libn = cbuild.build_lib_native(self.scratch)  # overlaps with the symbolic runs
@@ -190,7 +199,7 @@ class Check:
 
     def _finish_job(self, job, parts, twin, libn):
         agg = dict(paths=0, forks=0, queries=0, qtime=0.0, instrs=0, findings=0, incomplete=0, inconclusive=0,
-                   cache_hits=0, pruned=0)
+                   cache_hits=0, pruned=0, cvc5_queries=0, cvc5_time=0.0, cvc5_unsat=0, cvc5_sat=0, cvc5_unknown=0)
         reach, calls, findings, samples = {}, {}, [], []
         agg['incomplete'] = job['_left']
         for r in parts:
@@ -357,6 +366,8 @@ class Check:
             jobs.append(dict(job=r['job'], harness=r['harness'], defines=r['defines'], parts=r['parts'],
                              paths=s['paths'], forks=s['forks'], queries=s['queries'], solver_s=round(s['qtime'], 2),
                              instructions=s['instrs'], incomplete=s['incomplete'], inconclusive=s['inconclusive'],
+                             cvc5_fallback=dict(queries=s.get('cvc5_queries', 0), unsat=s.get('cvc5_unsat', 0), sat=s.get('cvc5_sat', 0),
+                                                unknown=s.get('cvc5_unknown', 0), seconds=round(s.get('cvc5_time', 0), 2)),
                              reach=r['reach'], twin_refuted=r.get('twin_refuted'), validated=r.get('validated', 0)))
             samples.extend(r['samples'][:2])
         lib = sorted((k for k in funcs if not k.startswith('@main_') and not k.startswith('@h_')),
@@ -368,7 +379,7 @@ class Check:
                     bounds=bounds, outside_claim=outside, stubs=STUBS,
                     exhaustive=all(j['incomplete'] == 0 and j['inconclusive'] == 0 for j in jobs),
                     encoding='LLVM-14 IR regenerated from %s/c by clang -O0 + mem2reg on this run; interpreted by '
-                             'engine/llsym.py over z3' % cbuild.REPO)
+                             'engine/llsym.py over z3 (queries z3 leaves undecided go to cvc5 with bit-vectors solved as integers)' % cbuild.REPO)
 
 
 def load_known(pid):
